@@ -70,3 +70,14 @@ add("C12", "exploration",
     "Every dividend of length 0..4 and divisor of length 0..3 over {0,+-1,+-2} exactly; 2.7e6 (quick) / 2.2e7 (thorough) f64 pairs over {1,-3,0.1,49,1e-6,-7.3e5,0,1/3} whose leading terms mostly do not cancel exactly; integer-valued f64 and Complex<f64> lattices: Ok iff the divisor is non-zero (leading coefficient non-zero), u = q*v + r exactly / to 1e-13 (double-double residual), deg r < deg v or r = 0, Err on empty/zero divisors, no panic, no spin (20 s watchdog per call).",
     "Trusted: independent convolution; divisors with zero stored leading coefficient are outside the claim.",
     "DESIGN.md section 6 C12")
+
+add("C13", "model_checking",
+    "exhaustive pair/triple enumeration over exact and f64 components + explicit-state BFS over compound-assignment histories, independent Gaussian-rational formulae and double-double as oracles",
+    "All 1296 pairs of Complex<Rat> over a 6-letter component alphabet (every operator, mixed real form and compound assignment exactly equal to the field formulae; identities; lexicographic order with trichotomy), all 10^4 Complex<f64> pairs with components from 1e-100 to 1e100 (normwise error <= 8 eps against double-double; compound and mixed forms bit-identical to binary forms), all 15625 triples for transitivity, and a BFS over sequences of in-place operations on one Complex<Rat>.",
+    "Trusted: independent CQ field formulae, double-double arithmetic (fma). NaN and overflow ranges are outside the claim.",
+    "DESIGN.md section 6 C13")
+add("C14", "exploration",
+    "exhaustive evaluation of all 38 functions on a branch-cut-aware lattice of the complex plane against an independent series implementation",
+    "Rectangular, polar and cut-adjacent grids (1.6e3 points quick, 2.6e4 thorough) covering every quadrant, both axes, both sides (+-1e-9, +-1e-13, +-0) of every cut and 1e-6 neighbourhoods of the branch points: forward functions against exp by scaling-and-squaring Taylor series (1e-9), every inverse pinned by forward_oracle(inverse(z)) = z (1e-8) plus its principal range, reciprocals, Pythagorean identities, z^w = exp(w ln z) for 7 exponents, polar round trip, reduction to f64 on the real axis.",
+    "Trusted: own complex arithmetic and Taylor exp. The continuum between lattice points is not covered; which side of a cut is continuous is not prescribed.",
+    "DESIGN.md section 6 C14")
